@@ -187,12 +187,18 @@ impl Binary {
             (Binary::LazyOr, Term::Bool(true), []) => Ok(Term::Bool(true)),
             (Binary::LazyOr, Term::Bool(false), []) => {
                 let e = Expression { ops: right.clone() };
-                e.evaluate(values, symbols, extern_func)
+                match e.evaluate(values, symbols, extern_func)? {
+                    Term::Bool(b) => Ok(Term::Bool(b)),
+                    _ => Err(error::Expression::InvalidType),
+                }
             }
             (Binary::LazyAnd, Term::Bool(false), []) => Ok(Term::Bool(false)),
             (Binary::LazyAnd, Term::Bool(true), []) => {
                 let e = Expression { ops: right.clone() };
-                e.evaluate(values, symbols, extern_func)
+                match e.evaluate(values, symbols, extern_func)? {
+                    Term::Bool(b) => Ok(Term::Bool(b)),
+                    _ => Err(error::Expression::InvalidType),
+                }
             }
 
             // set
